@@ -280,12 +280,23 @@ impl<K, V, A: Allocator> CaoHashMap<K, V, A> {
         self.zero_hashes();
         let count = std::mem::replace(&mut self.count, 0); // insert will increment count
                                                            // copy over the existing values
+        // The items are moved, not inserted again: each goes to the first free bucket of its probe
+        // sequence without being compared with the others. (Keys with interior mutability - tables
+        // used as keys - may compare equal by now although they were stored as distinct entries;
+        // inserting would merge them and lose an entry.)
         for i in 0..capacity {
             let hash = *data.as_ptr().cast::<u64>().add(i);
             if hash != 0 {
                 let key = std::ptr::read(keys.as_ptr().add(i));
                 let val = std::ptr::read(values.as_ptr().add(i));
-                self.insert_with_hint(hash, key, val)?;
+                let mut ind = (hash.wrapping_mul(2654435769) as usize) % self.capacity;
+                while self.hashes()[ind] != 0 {
+                    ind = (ind + 1) % self.capacity;
+                }
+                self.hashes_mut()[ind] = hash;
+                std::ptr::write(self.keys.as_ptr().add(ind), key);
+                std::ptr::write(self.values.as_ptr().add(ind), val);
+                self.count += 1;
             }
         }
 
